@@ -178,7 +178,7 @@ def process_includes(lualines, filename=None):
         assert root_path is not None
 
         inc_path_b, inc_extension_b, inc_tab_b = m.groups()
-        inc_path = str(inc_path_b, encoding='utf-8')
+        inc_path = lua.p8scii_to_unicode(inc_path_b)
         inc_extension = str(inc_extension_b, encoding='utf-8')
         inc_tab = None
         if inc_tab_b:
